@@ -568,9 +568,8 @@ func TestVerifSync(t *testing.T) {
 	seed, n := vs.Params(500)
 	out := vs.OpenOut()
 	defer out.Close()
-	only := vs.Only()
 	for i := 0; i < n; i++ {
-		if only >= 0 && i != only {
+		if !vs.Mine(i) {
 			continue
 		}
 		r := vs.CaseRand(seed, i)
